@@ -152,10 +152,13 @@ def cases(tier):
     for omit in (True, False):
         out.append({"sub": "zd", "pairing": "rosenbergstrong", "dim": 3, "omit": omit, "n": 6 if thorough else 3})
     # PairingToZ1d
+    # all interval shapes: L < R, L > R, L = R, one state on a half axis, and an EMPTY half axis (L = 0 or R = 0: what the
+    # sampling factory builds for a 1-d grid whose origin is its first / last point); [0,0] only with zero kept (one state)
     N = 9 if thorough else 5
-    for L in range(1, N + 1):
-        for R in range(1, N + 1):
-            out.append({"sub": "z1d", "L": L, "R": R, "depth": 4 if (thorough and L + R <= 10) else 3})
+    for L in range(0, N + 1):
+        for R in range(0, N + 1):
+            if L + R >= 1:
+                out.append({"sub": "z1d", "L": L, "R": R, "depth": 4 if (thorough and L + R <= 10) else 3})
             out.append({"sub": "z1d", "L": L, "R": R, "depth": 3 if (thorough and L + R <= 10) else 2, "omit": False})
     # lazy product
     maxe = 4
@@ -165,16 +168,22 @@ def cases(tier):
                 continue
             out.append({"sub": "lazy", "sizes": list(sizes)})
     # states manager
-    M1 = 5
-    for L in range(1, M1 + 1):
-        for R in range(1, M1 + 1):
-            out.append({"sub": "states", "shape": [[L, R]]})
+    # 1-d: the origin may be the first / last point of the axis (L = 0 / R = 0: one-sided grid)
+    M1 = 8 if thorough else 5
+    for L in range(0, M1 + 1):
+        for R in range(0, M1 + 1):
+            if L + R >= 1:
+                out.append({"sub": "states", "shape": [[L, R]]})
     M2 = 4 if thorough else 2
-    shapes2 = list(itertools.product(range(1, M2 + 1), repeat=4))
+    shapes2 = list(itertools.product(range(0, M2 + 1), repeat=4))
     for a, b, c, d in shapes2:
+        if 0 in (a, b, c, d) and (a != c or a + b < 1 or c + d < 1):
+            continue  # one-sided n-d grids: only the representable ones (one origin index), every axis with >= 2 points
         out.append({"sub": "states", "shape": [[a, b], [c, d]]})
     M3 = 3 if thorough else 2
-    for sh in itertools.product(range(1, M3 + 1), repeat=6):
+    for sh in itertools.product(range(0, M3 + 1), repeat=6):
+        if 0 in sh and (not (sh[0] == sh[2] == sh[4]) or min(sh[0] + sh[1], sh[2] + sh[3], sh[4] + sh[5]) < 1):
+            continue
         if not thorough and sum(sh) > 9:
             continue
         if thorough and sum(sh) > 13:
@@ -190,10 +199,18 @@ def cases(tier):
                     out.append({"sub": "states", "shape": [[l, r1], [l, r2]], "boundary": bnd})
         for r1, r2, r3 in itertools.product((2, 3), repeat=3):
             out.append({"sub": "states", "shape": [[2, r1], [2, r2], [2, r3]], "boundary": bnd})
+    # one-sided grids (origin at the first / last point of every axis) with a boundary
+    for bnd in ("rectangle", "simplex"):
+        for shape in ([[0, 3], [0, 4]], [[0, 3], [0, 3]], [[3, 0], [3, 0]], [[2, 0], [2, 3]], [[0, 2], [0, 3], [0, 2]]) + (
+                ([[0, 5], [0, 4]], [[4, 0], [4, 0]], [[3, 0], [3, 4]], [[2, 0], [2, 3], [2, 0]], [[2, 0], [2, 1], [2, 0]]) if thorough else ()):
+            out.append({"sub": "states", "shape": shape, "boundary": bnd})
+    for R in range(3, M1 + 1):
+        out.append({"sub": "states", "shape": [[0, R]], "boundary": "rectangle"})
+        out.append({"sub": "states", "shape": [[R, 0]], "boundary": "rectangle"})
     # the enumeration of a 2-d domain over the other pairings of the module (the largest admissible index is then not the
     # index of a frontier state)
     for pname in ("rosenbergstrong", "cantor", "pepiskalmar") + (("hyperbolic",) if thorough else ()):
-        for shape in ([[1, 1], [1, 1]], [[1, 2], [1, 1]], [[2, 1], [2, 2]], [[2, 3], [2, 2]]):
+        for shape in ([[1, 1], [1, 1]], [[1, 2], [1, 1]], [[2, 1], [2, 2]], [[2, 3], [2, 2]], [[0, 2], [0, 1]], [[1, 0], [1, 2]]):
             if pname == "pepiskalmar" and sum(map(sum, shape)) > 5:
                 continue  # indices grow like 2^(2 r): the walk over the skipped indices is too long
             out.append({"sub": "states", "shape": shape, "pairing": pname})
@@ -220,7 +237,14 @@ def cases(tier):
     inv_shapes += [([[1, 1], [1, 2], [1, 1]], "none"), ([[2, 1], [2, 2], [2, 1]], "none")]
     inv_shapes += [([[2, 3], [2, 2]], b) for b in ("rectangle", "simplex")] + [([[3, 2], [3, 4]], b) for b in ("rectangle", "simplex")]
     inv_shapes += [([[2, 2], [2, 3], [2, 2]], b) for b in ("rectangle", "simplex")] + [([[3, 4]], "rectangle")]
+    # one-sided grids: the origin is the first / last point of the axis (the pairing gets an empty half axis)
+    inv_shapes += [([[0, 3]], "none"), ([[3, 0]], "none"), ([[0, 5]], "none"), ([[4, 0]], "none"), ([[0, 5]], "rectangle"),
+                   ([[0, 2], [0, 2]], "none"), ([[2, 0], [2, 1]], "none"), ([[0, 3], [0, 3]], "simplex")]
     if thorough:
+        inv_shapes += [([[0, R]], "none") for R in (4, 6, 7, 8)] + [([[L, 0]], "none") for L in (5, 6, 7, 8)]
+        inv_shapes += [([[L, 0]], "rectangle") for L in (4, 6)] + [([[0, b], [0, d]], "none") for b in (1, 3) for d in (2, 4)]
+        inv_shapes += [([[3, 0], [3, 0]], b) for b in ("none", "rectangle", "simplex")]
+        inv_shapes += [([[0, 1], [0, 2], [0, 1]], "none"), ([[2, 0], [2, 1], [2, 0]], "simplex")]
         inv_shapes += [([[a, b], [a, d]], "none") for a in (3, 4) for b in (2, 4) for d in (3, 5)]
         inv_shapes += [([[l, r1], [l, r2]], b) for b in ("rectangle", "simplex") for l in (2, 3) for r1 in (3, 5) for r2 in (2, 4)]
         inv_shapes += [([[2, r1], [2, r2], [2, r3]], b) for b in ("none", "rectangle", "simplex")
@@ -237,14 +261,32 @@ def cases(tier):
         # the library's own bound, untouched: an interval with more states than the log holds, one sampler, one history
         # of draws in which every ordered pair of targets occurs
         out.append({"sub": "inversion", "shape": [[3, 1_000_030]], "boundary": "none", "storage": "default", "depth": 0})
+    # argument forms and copies of every public entry point exercised above
+    for name in ("cantor", "rosenbergstrong", "szudzik", "pepiskalmar", "hyperbolic"):
+        out.append({"sub": "forms", "what": "pairing", "pairing": name, "n": 24 if thorough else 12, "zmax": 2000 if thorough else 400})
+    for name, dim in (("szudzik", 2), ("rosenbergstrong", 2), ("cantor", 2), ("rosenbergstrong", 3), ("szudzik", 3)) + (
+            (("hyperbolic", 2), ("pepiskalmar", 2), ("rosenbergstrong", 4)) if thorough else ()):
+        for omit in (True, False):
+            out.append({"sub": "forms", "what": "zd", "pairing": name, "dim": dim, "omit": omit,
+                        "n": 1 if (name == "pepiskalmar" or dim == 4) else (2 if dim == 3 else 3)})
+    for L, R in [(2, 5), (5, 2), (3, 3), (1, 1), (0, 4), (4, 0), (0, 1), (1, 0)] + ([(a, b) for a in range(0, 7) for b in range(0, 7) if a + b] if thorough else []):
+        for omit in (True, False):
+            out.append({"sub": "forms", "what": "z1d", "L": L, "R": R, "omit": omit})
+    out.append({"sub": "forms", "what": "lazy"})
+    for shape, bnd in [([[2, 3]], "none"), ([[0, 3]], "none"), ([[3, 0]], "none"), ([[3, 4]], "rectangle"), ([[1, 2], [1, 1]], "none"),
+                       ([[0, 2], [0, 1]], "none"), ([[2, 3], [2, 2]], "rectangle"), ([[2, 3], [2, 2]], "simplex"), ([[1, 1], [1, 2], [1, 1]], "none")]:
+        out.append({"sub": "forms", "what": "states", "shape": shape, "boundary": bnd})
     # histories on RE-USED objects: one Domain (with its grid and pairing) across refine() in place / re-assigned public
     # attributes / deepcopy / a second Domain used in between; a new StatesManager after every operation
     reuse = [([[1, 1]], "none"), ([[2, 3]], "none"), ([[3, 2]], "none"), ([[3, 3]], "rectangle"),
              ([[1, 1], [1, 1]], "none"), ([[1, 2], [1, 1]], "none"), ([[2, 1], [2, 3]], "none"), ([[2, 2], [2, 3]], "none"),
              ([[2, 3], [2, 2]], "rectangle"), ([[2, 3], [2, 2]], "simplex"), ([[3, 3], [3, 4]], "rectangle"), ([[3, 3], [3, 4]], "simplex"),
              ([[1, 1], [1, 1], [1, 1]], "none"), ([[1, 2], [1, 1], [1, 2]], "none"),
-             ([[2, 2], [2, 3], [2, 2]], "rectangle"), ([[2, 2], [2, 3], [2, 2]], "simplex")]
+             ([[2, 2], [2, 3], [2, 2]], "rectangle"), ([[2, 2], [2, 3], [2, 2]], "simplex"),
+             ([[0, 3]], "none"), ([[2, 0]], "none"), ([[0, 2], [0, 1]], "none")]
     if thorough:
+        reuse += [([[0, 1]], "none"), ([[4, 0]], "rectangle"), ([[2, 0], [2, 2]], "none"), ([[0, 2], [0, 3]], "simplex"),
+                  ([[0, 1], [0, 1], [0, 2]], "none")]
         reuse += [([[a, b], [a, d]], "none") for a in (1, 2, 3) for b in (1, 3) for d in (2, 4)]
         reuse += [([[2, r1], [2, r2], [2, r3]], b) for b in ("none", "simplex") for r1, r2, r3 in itertools.product((1, 2), repeat=3)]
     for shape, bnd in reuse:
@@ -534,6 +576,21 @@ def _z1d_reference(L, R):
     return out
 
 
+def _dill_round_trip(o):
+    import dill
+
+    return dill.loads(dill.dumps(o))
+
+
+def _copies():
+    import copy
+
+    return {"c": ("deepcopy", copy.deepcopy), "s": ("shallow-copy", copy.copy), "p": ("dill-round-trip", _dill_round_trip)}
+
+
+_Z1D_COPIES = _copies()
+
+
 def _sub_z1d(sh, case):
     import copy
 
@@ -549,7 +606,10 @@ def _sub_z1d(sh, case):
     p = PairingToZ1d((-L, R), **kw)
     seq = [int(p.project(i)) for i in range(n)]
     sh.count("evaluations", n)
-    shape = tag + ("L=R" if L == R else ("L<R" if L < R else "L>R"))
+    if L == 0 or R == 0:  # an empty half axis: classes of their own
+        shape = tag + ("L=R=0" if L == R else ("L=0" if L == 0 else "R=0"))
+    else:
+        shape = tag + ("L=R" if L == R else ("L<R" if L < R else "L>R"))
     if sorted(seq) != states:
         sh.violation(f"C14:z1d:increasing-order-not-a-bijection:{shape}",
                      f"[-{L},{R}]: project(0..{n - 1}) = {seq}", {"seq": seq})
@@ -561,6 +621,14 @@ def _sub_z1d(sh, case):
         sh.violation(f"C14:z1d:pair-not-onto-indices:{shape}", f"[-{L},{R}]: pair(states) = {[q.pair(s) for s in states]}", None)
     zero = [] if omit else [0]
     ref = seq if sorted(seq) == states else zero + _z1d_reference(L, R)
+    if sorted(seq) == states:
+        q = PairingToZ1d((-L, R), **kw)
+        npseq = [int(q.project(np.int64(i))) for i in reversed(range(n))][::-1]
+        nppair = [int(q.pair(np.int64(v))) for v in seq]
+        sh.count("evaluations", 2 * n)
+        if npseq != seq or nppair != list(range(n)):
+            sh.violation(f"C14:z1d:numpy-integer-argument-answers-differently:{shape}",
+                         f"[-{L},{R}]: project(np.int64(i)) = {npseq}, project(i) = {seq}; pair(np.int64(project(i))) = {nppair}", None)
 
     # (2) call orders: explicit-state search; a state is the history of events on one object:
     #     i        project(i) on the object
@@ -569,6 +637,7 @@ def _sub_z1d(sh, case):
     L2, R2 = R + 1, L  # the second interval switches to the other side
     n2 = L2 + R2 + (0 if omit else 1)
     ref2 = zero + _z1d_reference(L2, R2)
+    shape2 = "L=0" if L2 == 0 else ("R=0" if R2 == 0 else ("L=R" if L2 == R2 else ("L<R" if L2 < R2 else "L>R")))
     other_menu = sorted({0, min(2 * min(L2, R2), n2 - 1), n2 - 1})
 
     def build(hist):
@@ -576,8 +645,8 @@ def _sub_z1d(sh, case):
         o2 = PairingToZ1d((-L2, R2), **kw)
         obs = []
         for ev in hist:
-            if ev == "c":
-                o = copy.deepcopy(o)
+            if isinstance(ev, str):
+                o = _Z1D_COPIES[ev][1](o)
                 obs.append(None)
             elif isinstance(ev, list):
                 obs.append(int(o2.project(ev[1])))
@@ -586,31 +655,33 @@ def _sub_z1d(sh, case):
         return o, obs
 
     def menu(state, hist):
-        return list(range(n)) + [["o", i] for i in other_menu] + ["c"]
+        return list(range(n)) + [["o", i] for i in other_menu] + list(_Z1D_COPIES)
 
     def canon(state, hist):
         o, obs = state
-        since = max([j for j, ev in enumerate(hist) if ev == "c"], default=-1)
+        since = max([j for j, ev in enumerate(hist) if isinstance(ev, str)], default=-1)
+        kinds = tuple(sorted({ev for ev in hist if isinstance(ev, str)}))
         mine = tuple(sorted({(ev, ob) for ev, ob in zip(hist[since + 1:], obs[since + 1:]) if isinstance(ev, int)}))
         before = tuple(sorted({(ev, ob) for ev, ob in zip(hist[:since + 1], obs[:since + 1]) if isinstance(ev, int)}))
         others = tuple(sorted({(ev[1], ob) for ev, ob in zip(hist, obs) if isinstance(ev, list)}))
-        return (getattr(o, "_switch", None), getattr(o, "_kk", None), mine, before, others)
+        return (getattr(o, "_switch", None), getattr(o, "_kk", None), mine, before, others, kinds)
 
     def invariant(state, hist, ev):
         o, obs = state
-        if ev is None or ev == "c":
+        if ev is None or isinstance(ev, str):
             return None
         mine = [e for e in hist if isinstance(e, int)]
         plain = len(mine) == len(hist)
         if isinstance(ev, list):
             if obs[-1] != ref2[ev[1]]:
-                return (f"C14:z1d:project-depends-on-call-history:{shape}:second-object",
+                return (f"C14:z1d:project-depends-on-call-history:{shape}:second-object:{shape2}",
                         f"[-{L2},{R2}] used next to [-{L},{R}]: after events {hist[:-1]}, project({ev[1]}) on the second object = "
                         f"{obs[-1]} but its enumeration gives {ref2[ev[1]]}", {"history": hist, "observed": obs})
             return None
         if obs[-1] != ref[ev]:
             if not plain:
-                cls = "after-deepcopy" if "c" in hist else "second-object-in-between"
+                last = [e for e in hist if isinstance(e, str)][-1:]
+                cls = f"after-{_Z1D_COPIES[last[0]][0]}" if last else "second-object-in-between"
             else:
                 cls = "out-of-increasing-order" if (hist != sorted(hist) or hist != list(range(hist[0], hist[0] + len(hist))) or hist[0] > min(L, R) * 2) else "in-order"
             return (f"C14:z1d:project-depends-on-call-history:{shape}:{cls}",
@@ -624,6 +695,220 @@ def _sub_z1d(sh, case):
     sh.nontriv()
     if L == 2 and R == 4 and omit:
         sh.sample({"sub": "z1d", "interval": [-L, R], "increasing": seq, "bfs_states": s, "bfs_transitions": t})
+
+
+# ----------------------------------------------------------------------------------------------------------------------
+# argument forms and copies
+
+def _ints(v):
+    return tuple(int(x) for x in np.atleast_1d(np.asarray(v, dtype=object)).ravel())
+
+
+class _Forms:
+    """Differential oracle 'same answer as the usual form' (exact: integers). A form the library rejects (raises) is outside
+    the alphabet and only counted, unless the library itself calls the entry point with that form (`used`): the indices
+    numpy.random.choice hands to project() on exhaustion are numpy integers."""
+
+    def __init__(self, sh, component):
+        self.sh, self.component, self.reported = sh, component, set()
+
+    def check(self, form, usual, call, where, used=False, arg=None):
+        self.sh.count("evaluations")
+        before = None if arg is None else np.array(arg, copy=True)
+        try:
+            got = _ints(call())
+        except Exception as e:  # noqa
+            if not used:
+                self.sh.count(f"form-rejected-by-the-library:{self.component}:{form}")
+                return
+            got = repr(e)
+        kind = None
+        if got != _ints(usual):
+            kind = "answers-differently-from-the-usual-form"
+        elif before is not None and not np.array_equal(before, np.asarray(arg)):
+            kind = "modifies-its-argument"
+        if kind and (form, kind) not in self.reported:
+            self.reported.add((form, kind))
+            self.sh.violation(f"C14:forms:{self.component}:{form}:{kind}", f"{where}: {form} gives {got}, the usual form {_ints(usual)}"
+                              + ("" if before is None else f"; argument before {before.tolist()}, after {np.asarray(arg).tolist()}"), None)
+
+
+def _sub_forms(sh, case):
+    """Every public entry point of the anchored classes called with each legal form of its arguments; see the docstring."""
+    import copy
+
+    from rpylib.distribution.pairing import Domain, PairingToZ1d, PairingToZd, StatesManager
+    from rpylib.tools.generic import lazy_indices_product
+
+    what = case["what"]
+    if what == "pairing":
+        name = case["pairing"]
+        p = _pairings()[name]
+        F = _Forms(sh, f"pairing:{name}")
+        n, ny = case["n"], (min(case["n"], 10) if name == "pepiskalmar" else case["n"])
+        pts = [(x, y) for x in range(n) for y in range(ny)] + ([] if name == "pepiskalmar" else [(3000, 5000), (5000, 3000), (4000, 4000)])
+        for x, y in pts:
+            z = p.pairing((x, y))
+            w = f"pairing(({x},{y}))"
+            F.check("pairing2d-of-ints", z, lambda: p.pairing2d(x, y), w, used=True)
+            F.check("list", z, lambda: p.pairing([x, y]), w)
+            a = np.array([x, y])
+            F.check("int64-array", z, lambda: p.pairing(a), w, arg=a)
+            a32 = np.array([x, y], dtype=np.int32)
+            if max(x, y) < 1000:
+                F.check("int32-array", z, lambda: p.pairing(a32), w, arg=a32)
+            F.check("tuple-of-numpy-integers", z, lambda: p.pairing((np.int64(x), np.int64(y))), w, used=True)
+            F.check("pairing2d-of-numpy-integers", z, lambda: p.pairing2d(np.int64(x), np.int64(y)), w, used=True)
+            F.check("keyword", z, lambda: p.pairing(x=(x, y)), w)
+        for z in list(range(case["zmax"])) + [10 ** 6 + k for k in range(-2, 3)]:
+            t = _proj2(p, name, z)
+            w = f"projection({z})"
+            F.check("numpy-int64", t, lambda: p.projection(np.int64(z)), w, used=True)
+            F.check("numpy-int32", t, lambda: p.projection(np.int32(z)), w)
+            F.check("0-d-array", t, lambda: p.projection(np.array(z)), w)
+            F.check("keywords", t, lambda: p.projection(z=z, dim=2), w)
+            F.check("positional-dim", t, lambda: p.projection(z, 2), w)
+            F.check("projection2d", t, lambda: p.projection2d(z), w)
+        if name != "cantor":
+            for z in range(case["zmax"] // 4):
+                t = p.projection(z, 3)
+                F.check("d3:numpy-int64", t, lambda: p.projection(np.int64(z), 3), f"projection({z},3)", used=True)
+                F.check("d3:keywords", t, lambda: p.projection(z=z, dim=3), f"projection({z},3)")
+                t = _ints(t)
+                F.check("d3:list", z, lambda: p.pairing(list(t)), f"pairing({t})")
+                F.check("d3:tuple-of-numpy-integers", z, lambda: p.pairing(tuple(np.int64(v) for v in t)), f"pairing({t})", used=True)
+                a = np.array(t)
+                F.check("d3:int64-array", z, lambda: p.pairing(a), f"pairing({t})", arg=a)
+        sh.outcome(("forms", name, len(pts)))
+    elif what == "zd":
+        name, dim, omit, n = case["pairing"], case["dim"], case["omit"], case["n"]
+        F = _Forms(sh, f"zd:{name}:d{dim}")
+        for how_name, how in [("fresh", lambda o: o)] + [v for v in _copies().values()]:
+            q = how(PairingToZd(_pairings()[name], dimension=dim, omit_zero=omit))
+            p = PairingToZd(pairing=_pairings()[name], dimension=dim, omit_zero=omit)
+            for t in itertools.product(range(-n, n + 1), repeat=dim):
+                if omit and not any(t):
+                    continue
+                i = p.pair(t)
+                w = f"pair({t}), omit_zero={omit}"
+                if how_name != "fresh":
+                    F.check(f"object-after-{how_name}", i, lambda: q.pair(t), w, used=True)
+                    F.check(f"object-after-{how_name}", t, lambda: q.project(i), f"project({i})", used=True)
+                    continue
+                F.check("list", i, lambda: p.pair(list(t)), w)
+                a = np.array(t)
+                F.check("int64-array", i, lambda: p.pair(a), w, arg=a)
+                F.check("tuple-of-numpy-integers", i, lambda: p.pair(tuple(np.int64(v) for v in t)), w, used=True)
+                F.check("keyword", i, lambda: p.pair(x=t), w)
+                F.check("project:numpy-int64", t, lambda: p.project(np.int64(i)), f"project({i})", used=True)
+                F.check("project:0-d-array", t, lambda: p.project(np.array(i)), f"project({i})")
+                F.check("project:keyword", t, lambda: p.project(x=i), f"project({i})")
+        sh.outcome(("forms-zd", name, dim, omit))
+    elif what == "z1d":
+        L, R, omit = case["L"], case["R"], case["omit"]
+        F = _Forms(sh, "z1d")
+        usual = PairingToZ1d((-L, R), omit_zero=omit)
+        n = L + R + (0 if omit else 1)
+        seq = [usual.project(i) for i in range(n)]
+        members = [v for v in range(-L, R + 1) if v != 0 or not omit]
+        pairs = [usual.pair(v) for v in members]  # differential: whatever the usual form answers, right or wrong
+        mutable = [-L, R]
+        ctors = {"list": lambda: PairingToZ1d([-L, R], omit_zero=omit),
+                 "int64-array": lambda: PairingToZ1d(np.array([-L, R]), omit_zero=omit),
+                 "tuple-of-numpy-integers": lambda: PairingToZ1d((np.int64(-L), np.int64(R)), omit_zero=omit),
+                 "keywords": lambda: PairingToZ1d(interval=(-L, R), omit_zero=omit),
+                 "positional-omit-zero": lambda: PairingToZ1d((-L, R), omit),
+                 "list-modified-by-the-caller-afterwards": lambda: PairingToZ1d(mutable, omit_zero=omit)}
+        if omit:
+            ctors["default-omit-zero"] = lambda: PairingToZ1d((-L, R))
+        for form, ctor in ctors.items():
+            w = f"PairingToZ1d([-{L},{R}], omit_zero={omit})"
+            try:
+                o = ctor()
+            except Exception:  # noqa
+                sh.count(f"form-rejected-by-the-library:z1d:constructor:{form}")
+                continue
+            mutable[0], mutable[1] = -L - 3, R + 3
+            F.check(f"constructor:{form}", seq, lambda: [o.project(i) for i in range(n)], w + " project(0..)")
+            F.check(f"constructor:{form}", pairs, lambda: [o.pair(v) for v in members], w + " pair(states)")
+            mutable[0], mutable[1] = -L, R
+        o = PairingToZ1d((-L, R), omit_zero=omit)
+        F.check("project:keyword", seq, lambda: [o.project(x=i) for i in range(n)], "project(x=i)")
+        o = PairingToZ1d((-L, R), omit_zero=omit)
+        F.check("project:0-d-array", seq, lambda: [o.project(np.array(i)) for i in range(n)], "project(np.array(i))")
+        F.check("pair:keyword", pairs, lambda: [o.pair(x=v) for v in members], "pair(x=state)")
+        F.check("pair:numpy-int64", pairs, lambda: [o.pair(np.int64(v)) for v in members], "pair(np.int64(state))", used=True)
+        o = PairingToZ1d((-L, R), omit_zero=omit)
+        F.check("project:numpy-int64", seq, lambda: [o.project(np.int64(i)) for i in range(n)], "project(np.int64(i))", used=True)
+        sh.outcome(("forms-z1d", L, R, omit, tuple(_ints(seq))))
+    elif what == "lazy":
+        F = _Forms(sh, "lazy-product")
+        for length in range(1, 4):
+            for sizes in itertools.product(range(1, 4), repeat=length):
+                ref = [v for t in lazy_indices_product(list(sizes)) for v in t]
+                w = f"lazy_indices_product({list(sizes)})"
+                F.check("tuple", ref, lambda: [v for t in lazy_indices_product(tuple(sizes)) for v in t], w)
+                a = np.array(sizes)
+                F.check("int64-array", ref, lambda: [v for t in lazy_indices_product(a) for v in t], w, arg=a)
+                lst = [np.int64(v) for v in sizes]
+                F.check("list-of-numpy-integers", ref, lambda: [v for t in lazy_indices_product(lst) for v in t], w, arg=lst)
+                lst2 = list(sizes)
+                F.check("list", ref, lambda: [v for t in lazy_indices_product(lst2) for v in t], w, arg=lst2, used=True)
+                F.check("keyword", ref, lambda: [v for t in lazy_indices_product(args=list(sizes)) for v in t], w)
+        sh.outcome("forms-lazy")
+    elif what == "states":
+        shape = [tuple(x) for x in case["shape"]]
+        bnd = case.get("boundary", "none")
+        dim = len(shape)
+        F = _Forms(sh, f"states:d{dim}")
+        grid = make_grid(shape)
+        pairing = _make_pairing(grid)
+        boundary = _make_boundary(bnd, shape)
+        ref = _reference_states(grid, boundary)
+
+        def new():
+            return StatesManager(pairing=pairing, domain=Domain(boundary=boundary, grid=grid, pairing=pairing), grid=grid)
+
+        def run(sm, call, start=0):
+            out = []
+            for x in range(start, 4 * len(ref) + 50):
+                inc, done = call(sm, x)
+                if done:
+                    return out + ["exhausted"]
+                out.append(_key(inc))
+            return out
+
+        def flat(seq):
+            return [v for t in seq for v in (t if isinstance(t, tuple) else (-99,))]
+
+        with _ScriptedChoice():
+            usual = run(new(), lambda sm, x: sm.project_index_to_state_increment(x))
+            w = f"shape {shape}, boundary {bnd}"
+            F.check("x-numpy-int64", flat(usual), lambda: flat(run(new(), lambda sm, x: sm.project_index_to_state_increment(np.int64(x)))), w, used=True)
+            F.check("keywords", flat(usual), lambda: flat(run(new(), lambda sm, x: sm.project_index_to_state_increment(x=x, max_logged=-1))), w)
+            F.check("positional-max-logged", flat(usual), lambda: flat(run(new(), lambda sm, x: sm.project_index_to_state_increment(x, -1))), w, used=True)
+            F.check("constructor-positional", flat(usual),
+                    lambda: flat(run(StatesManager(pairing, Domain(boundary, grid, pairing), grid), lambda sm, x: sm.project_index_to_state_increment(x))), w)
+            # a copy of the manager taken in the middle of the enumeration continues like the original, and the original is
+            # not disturbed by what its copy does afterwards
+            plain = lambda sm, x: sm.project_index_to_state_increment(x)  # noqa
+            for k in sorted({0, 1, (len(usual) - 1) // 2, len(usual) - 1}):
+                for how_name, how in _copies().values():
+                    sm = new()
+                    for x in range(k):
+                        sm.project_index_to_state_increment(x)
+                    try:
+                        cp = how(sm)
+                    except Exception:  # noqa
+                        sh.count(f"form-rejected-by-the-library:states:{how_name}")
+                        continue
+                    F.check(f"manager-after-{how_name}", flat(usual[k:]), lambda: flat(run(cp, plain, k)), w + f" copied after {k} states", used=True)
+                    F.check(f"original-after-its-{how_name}-was-used", flat(usual[k:]), lambda: flat(run(sm, plain, k)), w + f" copied after {k} states", used=True)
+        sh.outcome(("forms-states", tuple(shape), bnd, len(usual)))
+    else:
+        raise AssertionError(what)
+    sh.nontriv()
+    sh.cls(f"forms:{what}")
 
 
 def _sub_lazy(sh, case):
@@ -697,10 +982,7 @@ def _sub_states(sh, case):
     if bnd != "none":
         # grid spacing is 1.0 and the origin value 0.0, so a state increment IS its grid point: the reference evaluates the
         # boundary predicate on every in-grid state (brute force), independently of frontier / largest-index bookkeeping
-        if bnd == "rectangle":
-            boundary = RectangleBoundary([(-(l - 0.5), r - 0.5) for (l, r) in shape])
-        else:
-            boundary = SimplexBoundary([(-float(l), float(r)) for (l, r) in shape])
+        boundary = _make_boundary(bnd, shape)
         ref = [t for t in ref if not bool(boundary(np.array([float(v) for v in t])))]
         if len(ref) < 2:
             raise AssertionError(f"alphabet error: boundary {bnd} leaves {len(ref)} states for {shape}")
@@ -711,6 +993,8 @@ def _sub_states(sh, case):
     if case.get("pairing"):
         equal = f"{case['pairing']}:{equal}"
     sym = "symmetric" if all(l == r for l, r in shape) else "asymmetric"
+    if any(0 in lr for lr in shape):
+        sym = "one-sided"  # the origin is the first / last point of an axis
     try:
         sm = StatesManager(pairing=pairing, domain=domain, grid=grid)
     except Exception as e:
@@ -817,10 +1101,12 @@ class _ScriptedChoice:
 def _make_boundary(bnd, shape):
     from rpylib.distribution.pairing import Boundary, RectangleBoundary, SimplexBoundary
 
+    # an empty half axis (l = 0 or r = 0) gets the truncation of a half axis of one point: never reached by a grid point, and
+    # the library divides by it (simplex) / negates it (rectangle) without a guard for 0
     if bnd == "rectangle":
-        return RectangleBoundary([(-(l - 0.5), r - 0.5) for (l, r) in shape])
+        return RectangleBoundary([(-(max(l, 1) - 0.5), max(r, 1) - 0.5) for (l, r) in shape])
     if bnd == "simplex":
-        return SimplexBoundary([(-float(l), float(r)) for (l, r) in shape])
+        return SimplexBoundary([(-float(max(l, 1)), float(max(r, 1))) for (l, r) in shape])
     return Boundary()
 
 
@@ -982,6 +1268,8 @@ def _sub_inversion(sh, case):
         # process to the workers of a pool); "other": a second sampler on a larger grid draws beyond its total mass in between
         words += [(a, ev, b) for ev in ("copy", "other") for a in names for b in names]
     bcls = "no-boundary" if bnd == "none" else f"{bnd}-boundary"
+    if any(0 in lr for lr in shape):
+        bcls += ":one-sided"
     prefix = f"C14:inversion:d{dim}:{bcls}:{logcls}"
     other_shape = [(l, r + 1) for (l, r) in shape]
     reported = set()
@@ -1063,6 +1351,8 @@ def _sub_reuse(sh, case):
     shape0 = [tuple(x) for x in case["shape"]]
     dim, bnd0, depth = len(shape0), case.get("boundary", "none"), case["depth"]
     bcls = "no-boundary" if bnd0 == "none" else f"{bnd0}-boundary"
+    if any(0 in lr for lr in shape0):
+        bcls += ":one-sided"
     reported = set()
     nwords = 0
 
